@@ -112,6 +112,10 @@ Proof.
   split; [exact ex_ms_wf|]. destruct ex_ms_computes as (_ & H & L). split; [exact H|]. split; [exact L|].
   vm_compute. reflexivity.
 Qed.
+Example C23_roundtrip_example_511 :
+  Forall wf ex_511 /\ lenN ex_511_name = 511 /\ block (lenN ex_511_name + 1) = 512
+  /\ members_flat (write_archive (map enc ex_511)) = (Done, map (fun m => (w_h m, w_data m)) ex_511).
+Proof. split; [exact ex_511_wf|exact ex_511_computes]. Qed.
 (* every chunking of the written archive is read back the same way *)
 Theorem C23_roundtrip_chunked : forall (ms : list wmem) (s : stream), Forall wf ms ->
   concat s = write_archive (map enc ms) -> members_chunked false s = (Done, map expect ms).
